@@ -463,12 +463,19 @@ def sentinel_rule(ctx, prog):
             elif n.k == 'ReturnStmt' and n.ch and strip(n.ch[0]).k == 'BinaryOperator' and strip(n.ch[0]).get('op') == '-':
                 # a row cursor walked over the table: the index is `cursor - table`
                 l_, r_ = decl_of(strip(n.ch[0]).ch[0]), decl_of(strip(n.ch[0]).ch[1])
-                if l_ is not None and r_ is not None and l_['kind'] == 'var' and r_['kind'] == 'parm':
+                if l_ is not None and r_ is not None and l_['kind'] == 'var' and (
+                        r_['kind'] == 'parm' or r_.get('fileScope') or r_.get('staticStorage')):
                     uses.append((n, l_['id']))
             if n.k == 'CallExpr' and n.get('callee') is None:
                 sub = [x for x in n.ch[0].walk() if x.k == 'ArraySubscriptExpr']
                 if sub and decl_of(sub[0].ch[1]) is not None:
                     uses.append((n, decl_of(sub[0].ch[1])['id']))
+                elif not sub:
+                    # through a row cursor: cursor->member(...)
+                    cur = [x for x in n.ch[0].walk() if x.k == 'MemberExpr' and x.get('arrow') and
+                           (decl_of(x.ch[0]) or {}).get('kind') == 'var']
+                    if cur:
+                        uses.append((n, decl_of(cur[0].ch[0])['id']))
         ok = bool(uses)
         detail = 'no row selection found'
         for n, iv in uses:
@@ -916,6 +923,34 @@ def string_options_stored_whole(ctx, prog, rows):
                 r = strip(st.ch[1])
                 if r is not None and r.k == 'CallExpr':
                     stores.append((st, r))
+        # the same store made by a shared helper: helper(&CFG->field, ..., text) with `*param = <call>(text param)`
+        for c in PV.calls():
+            H = prog.func(c.get('callee'), PV.tu) if c.get('callee') else None
+            if H is None or not H.internal:
+                continue
+            fields = [(i, strip(strip(a).ch[0]).get('member')) for i, a in enumerate(c.ch[1:]) if a is not None and
+                      strip(a).k == 'UnaryOperator' and strip(a).get('op') == '&' and strip(strip(a).ch[0]).k == 'MemberExpr' and
+                      (strip(a).get('ct') or '').replace(' ', '').endswith('char**')]
+            texts = [i for i, a in enumerate(c.ch[1:]) if a is not None and pt.is_derived(a)]
+            if not fields or not texts:
+                continue
+            hpt = PtrTaint(H, lambda x: False, {H.params[i]['id'] for i in texts if i < len(H.params)})
+            for i, fld in fields:
+                if i >= len(H.params):
+                    continue
+                pid = H.params[i]['id']
+                for st in H.body.walk():
+                    if st.k == 'BinaryOperator' and st.get('op') == '=':
+                        l = strip(st.ch[0])
+                        r = strip(st.ch[1])
+                        if l.k == 'UnaryOperator' and l.get('op') == '*' and (decl_of(l.ch[0]) or {}).get('id') == pid and \
+                                r is not None and r.k == 'CallExpr':
+                            n += 1
+                            okh = r.get('callee') in ('strdup', '__strdup') and len(r.ch) > 1 and hpt.is_derived(r.ch[1])
+                            chk.ob('T11', 'stored-whole[%s:%s]' % (name, fld), okh, st.where(), H.name,
+                                   'option "%s": %s is given the result of %s in %s, not strdup() of the option text: a longer '
+                                   'value loses its tail' % (name, fld, render(r)[:50], H.name),
+                                   how='strdup of the option text, in the shared helper %s' % H.name)
         for st, r in stores:
             n += 1
             fld = strip(st.ch[0]).get('member')
